@@ -66,6 +66,8 @@ def ps3_7_no_dataset() -> int:
 
 
 def run(repo, rep):
+    from ..pitfalls import memo_rule as _memo_rule
+    _memo_rule(repo, rep, 'C08', 'C08.Z1')
     dm = repo.module('dimsemessages')
     hier = exc_hierarchy(repo)
     base = repo.cls('dimsemessages', 'DIMSEMessage')
@@ -82,6 +84,14 @@ def run(repo, rep):
              'constructor): nothing else can make the Command Data Set Type disagree with what encode() will emit', 1)
     rep.rule('C08.M4', 'the data_set setter sets CommandDataSetType on both outcomes of the test encode() uses', 1)
 
+    # ---------------------------------------------------------------- M7: the writer is fresh, or per-thread and emptied first
+    rep.rule('C08.M7', 'the buffer dsutils hands to pydicom\'s writers is created in the call, or -- when it is kept for re-use -- held per '
+             'thread and emptied before the first write of the call: no bytes of another thread or of an earlier, failed encode get into a '
+             'command set (and into the group length computed from it)', 1)
+    from ..pitfalls import writer_reuse_problems
+    sh_, st_, nw_ = writer_reuse_problems(repo)
+    rep.check(not (sh_ or st_), 'C08.M7', 'dsutils:writers', repo.module('dsutils').relpath, '%d write sites: buffers fresh, or per-thread and '
+              'emptied first' % nw_, '; '.join(sh_ + st_))
     # ---------------------------------------------------------------- M0
     ds = repo.module('dsutils')
     for fname, inner in (('encode', None), ('encode_element', None), ('decode', 'read_dataset')):
@@ -139,7 +149,9 @@ def run(repo, rep):
                repo.func('fsm', 'DIMSEDecoder.process')]:
         rep.analysed(fi)
         for n in [x for hf in repo.helper_closure(fi) for x in ast.walk(hf.node)]:
-            if isinstance(n, ast.Call) and norm(n.func) in ('dsutils.encode', 'dsutils.encode_element', 'dsutils.decode'):
+            new_ds_helper = isinstance(n, ast.Call) and norm(n.func).startswith('dsutils.') and len(n.args) == 3 and \
+                norm(n.func).split('.', 1)[1] in ds.functions and repo.is_helper(ds.functions[norm(n.func).split('.', 1)[1]])
+            if isinstance(n, ast.Call) and (norm(n.func) in ('dsutils.encode', 'dsutils.encode_element', 'dsutils.decode') or new_ds_helper):
                 a0 = norm(n.args[0]) if n.args else ''
                 if n.args and isinstance(n.args[0], ast.Name):
                     # a local holding the argument: what it was computed from
@@ -336,6 +348,13 @@ def run(repo, rep):
                          'goes out again after the message was modified' % (' '.join(s2.conds) or 'no store found'))
         elif st_[-1].args[0] in folded or (st_[-1].args[0] == '0' and folded):
             pass     # an accumulation loop: 0 + the lengths added per element (0 on the path where nothing was added)
+        elif st_[-1].args[0].endswith('.tell()'):
+            # measured by writing the elements into one writer and asking where it stands: which elements, and that the writer
+            # was empty, is not read by this rule
+            if not m2_undecided:
+                m2_undecided = True
+                rep.undecided('C08.M2', '%s: the group length is the position of a writer (%s), not a sum of element lengths'
+                              % (sl.loc(), st_[-1].args[0][:80]))
         elif not st_[-1].args[0].startswith('sum('):
             probs.append('(0000,0000) is set to %s, not to the sum of the element lengths' % st_[-1].args[0])
     if 'encode_element' not in norm(sl.node):
